@@ -455,6 +455,11 @@ func (g *TxnGen) genTxn(t *rapid.T, st State) []Op {
 			return ops
 		}
 	}
+	if g.Cfg.RefBias && rapid.IntRange(0, 5).Draw(t, "chain") == 0 {
+		if ops := g.genChain(t, st); ops != nil {
+			return ops
+		}
+	}
 	if g.Cfg.RefBias && rapid.IntRange(0, 2).Draw(t, "composite") == 0 {
 		if ops := g.genAttach(t, st); ops != nil {
 			return ops
@@ -835,6 +840,114 @@ func (g *TxnGen) genAttach(t *rapid.T, st State) []Op {
 		ops = rapid.Permutation(ops).Draw(t, "oporder")
 	}
 	return ops
+}
+
+// genChain builds "a chain of rows of a non-root table, each holding a strong reference to
+// the next one, hangs from one row of another table" (3-9 links, longer than any schema
+// has tables), optionally watched by a row holding weak references to several links. When
+// the head is let go later, garbage collection takes one round per link, and the watcher is
+// pruned once per round.
+func (g *TxnGen) genChain(t *rapid.T, st State) []Op {
+	type site struct {
+		tb  Table // non-root table with a strong reference column to itself
+		col Col
+	}
+	var sites []site
+	for _, tb := range g.S.Tables {
+		if g.S.IsRoot(tb.Name) || len(tb.Indexes) > 0 {
+			continue
+		}
+		// (tables with a mandatory reference to themselves are left alone: a link could not
+		// be inserted without pointing at another link through that column too)
+		mandatory := false
+		for _, c := range tb.Cols {
+			refsSelf := (c.Key.T == TUUID && c.Key.Ref != nil && c.Key.Ref.Table == tb.Name) || (c.Value != nil && c.Value.T == TUUID && c.Value.Ref != nil && c.Value.Ref.Table == tb.Name)
+			mandatory = mandatory || (refsSelf && c.Min > 0)
+		}
+		if mandatory {
+			continue
+		}
+		for _, c := range tb.Cols {
+			if c.Key.T == TUUID && c.Key.Ref != nil && c.Key.Ref.Table == tb.Name && c.Key.Ref.Weak == false && c.Shape() != ShMap && c.Min == 0 {
+				sites = append(sites, site{tb, c})
+			}
+		}
+	}
+	if len(sites) == 0 {
+		return nil
+	}
+	s := sites[rapid.IntRange(0, len(sites)-1).Draw(t, "chainsite")]
+	// the holder: a strong reference column of another (or the same) table to s.tb
+	type hsite struct {
+		tb  Table
+		col Col
+	}
+	var holders []hsite
+	var watchers []hsite
+	for _, tb := range g.S.Tables {
+		for _, c := range tb.Cols {
+			if c.Key.T == TUUID && c.Key.Ref != nil && c.Key.Ref.Table == s.tb.Name && c.Shape() != ShMap && !(tb.Name == s.tb.Name && c.Name == s.col.Name) {
+				if c.Key.Ref.Weak {
+					if c.Shape() == ShSet && c.Max < 0 {
+						watchers = append(watchers, hsite{tb, c})
+					}
+				} else if len(tb.Indexes) == 0 && g.S.IsRoot(tb.Name) {
+					holders = append(holders, hsite{tb, c})
+				}
+			}
+		}
+	}
+	if len(holders) == 0 {
+		return nil
+	}
+	h := holders[rapid.IntRange(0, len(holders)-1).Draw(t, "chainholder")]
+	pool := g.pool(st, nil, nil)
+	n := rapid.IntRange(3, 9).Draw(t, "chainlen")
+	uuids := make([]string, n)
+	for i := range uuids {
+		uuids[i] = g.fresh()
+	}
+	var ops []Op
+	for i := 0; i < n; i++ {
+		ins := g.GenInsert(t, s.tb, pool, "")
+		ins.UUID = uuids[i]
+		// the generated row may refer to other rows of the table through other columns: keep the
+		// chain the only thing that keeps the links alive
+		for _, c := range s.tb.Cols {
+			if (c.Key.T == TUUID && c.Key.Ref != nil && c.Key.Ref.Table == s.tb.Name) || (c.Value != nil && c.Value.T == TUUID && c.Value.Ref != nil && c.Value.Ref.Table == s.tb.Name) {
+				delete(ins.Row, c.Name)
+			}
+		}
+		if i+1 < n {
+			if s.col.Shape() == ShSet {
+				ins.Row[s.col.Name] = SetOf(UUID(uuids[i+1]))
+			} else {
+				ins.Row[s.col.Name] = Scalar(UUID(uuids[i+1]))
+			}
+		}
+		ops = append(ops, ins)
+	}
+	hold := g.GenInsert(t, h.tb, pool, "")
+	if h.col.Shape() == ShSet {
+		hold.Row[h.col.Name] = SetOf(UUID(uuids[0]))
+	} else {
+		hold.Row[h.col.Name] = Scalar(UUID(uuids[0]))
+	}
+	ops = append(ops, hold)
+	if len(watchers) > 0 && rapid.Bool().Draw(t, "chainwatcher") {
+		wsite := watchers[rapid.IntRange(0, len(watchers)-1).Draw(t, "chainwatchersite")]
+		wi := g.GenInsert(t, wsite.tb, pool, "")
+		v := EmptySet()
+		for i := 0; i < n; i++ {
+			if rapid.Bool().Draw(t, "watched") {
+				v = v.With(UUID(uuids[i]))
+			}
+		}
+		wi.Row[wsite.col.Name] = v
+		ops = append(ops, wi)
+	}
+	Label("generator", fmt.Sprintf("chain:%d-links", n))
+	return rapid.Permutation(ops).Draw(t, "chainorder")
 }
 
 // genBigMutate (Big mode) mutates or updates a set column that holds dozens of elements
